@@ -44,6 +44,8 @@ pub use self::blockstore::{
     AddShredError, BlockInfo, Blockstore, BlockstoreEvent, BlockstoreImpl, SharedBlockstore,
 };
 pub use self::cert::{Cert, CertError, NotarCert};
+#[cfg(feature = "verif-hooks")]
+pub use self::cert::{FastFinalCert, FinalCert, NotarFallbackCert, SkipCert};
 pub use self::epoch_info::{EpochInfo, ValidatorEpochInfo};
 #[cfg(feature = "test-utils")]
 pub use self::pool::bench_replay_votes;
